@@ -511,6 +511,9 @@ def w4_pack_iteration(ctx) -> None:
             for arg in c.args:
                 starred = isinstance(arg, ast.Starred)
                 base = arg.value if starred else arg
+                if isinstance(base, ast.Subscript) and is_self_attr(base.value) and base.value.attr in attrs:
+                    ctx.violation("W4", arg, f"only the part `{norm(base)}` of self.{base.value.attr} is iterated: the strategies left out can never be replayed, so the rules they "
+                                  "made cannot be recomputed (nor found again by the forest extractor)")
                 if is_self_attr(base) and base.attr in attrs:
                     if starred and base.attr not in nested:
                         ctx.violation("W4", arg, f"`*self.{base.attr}` hands each *strategy* of a flat list to chain() as if it were a list: iterating the pack fails (or "
